@@ -1,5 +1,6 @@
 import Hls.PartDur.LemmasFind
 import Hls.PartDur.LemmasTime
+import Hls.PartDur.LemmasMax
 /-!
 # The mini-model `write` along a run with a constant sample duration: every part closed by the
 part-switch rule holds exactly `K = partSamples a d r` samples
@@ -61,6 +62,55 @@ theorem rotateSegments_fields (s : St) (next : Int) :
   simp only [List.mem_append]
   exact key
 
+theorem rotateParts_window (s : St) (next : Int) :
+    windowParts (rotateParts s next) = windowParts s ++ [next - s.partStart] ∧
+    (rotateParts s next).partTarget = ceilMs (listMax (windowParts s ++ [next - s.partStart])) := by
+  obtain ⟨r1, _, r3, _⟩ := rotateParts_fields s next
+  have hw : windowParts (rotateParts s next) = windowParts s ++ [next - s.partStart] := by
+    unfold windowParts; rw [r3, r1, List.append_assoc]
+  refine ⟨hw, ?_⟩
+  have hpt : computePartTarget { s with openParts := s.openParts ++ [next - s.partStart], partStart := next } =
+      ceilMs (listMax (windowParts s ++ [next - s.partStart])) := by
+    rw [computePartTarget_eq]
+    unfold windowParts
+    simp only [List.append_assoc]
+  unfold rotateParts
+  simp only
+  split
+  · exact hpt
+  · split
+    · exact hpt
+    · rename_i h1 h2
+      rw [← hpt]
+      by_contra hne
+      exact h2 (fun h => hne h.symm)
+
+theorem mem_flatten_drop {l : List (List Int)} {p : Int} (h : p ∈ (l.drop 1).flatten) : p ∈ l.flatten := by
+  cases l with
+  | nil => simp at h
+  | cons x xs =>
+    simp only [List.drop_succ_cons, List.drop_zero] at h
+    simp only [List.flatten_cons, List.mem_append]
+    exact Or.inr h
+
+theorem rotateSegments_window (s : St) (next : Int) :
+    (∀ p ∈ windowParts (rotateSegments s next), p ∈ windowParts (rotateParts s next)) ∧
+    (rotateSegments s next).partTarget = (rotateParts s next).partTarget := by
+  unfold rotateSegments
+  simp only
+  refine ⟨?_, trivial⟩
+  intro p hp
+  unfold windowParts at hp ⊢
+  simp only [List.append_nil] at hp
+  have aux : ∀ (c : Prop) [Decidable c] (l : List (List Int)),
+      p ∈ (if c then l.drop 1 else l).flatten → p ∈ l.flatten := by
+    intro c _ l h
+    split at h
+    · exact mem_flatten_drop h
+    · exact h
+  have key := aux _ _ hp
+  simpa using key
+
 /-- the 10 s that `fmp4WriteSample` adds to every DTS -/
 def offset (r : Int) : Int := durationToTimestamp (10 * secNs) r
 
@@ -118,6 +168,43 @@ structure Ready (cfg : Cfg) (a d K : Int) (s : St) (tp j : Int) (ra : Bool) : Pr
   durSet : s.durSet = [timestampToDuration d cfg.rate]
   adjusted : s.adjusted = a
   nf : ∀ p ∈ nonFinal s, ∃ t0, 0 ≤ t0 ∧ p = partNs t0 K d cfg.rate
+
+/-- `p` is the duration of a part of at most `K` samples -/
+def IsPart (d K r : Int) (p : Int) : Prop := ∃ t0 j, 0 ≤ t0 ∧ 0 ≤ j ∧ j ≤ K ∧ p = partNs t0 j d r
+
+/-- second invariant: what the window holds and what PART-TARGET was computed from -/
+structure MidW (cfg : Cfg) (d K : Int) (s : St) : Prop where
+  wp : ∀ p ∈ windowParts s, IsPart d K cfg.rate p
+  tgt : windowParts s = [] ∨ ∃ W, (∀ p ∈ windowParts s, p ∈ W) ∧ (∀ p ∈ W, IsPart d K cfg.rate p) ∧
+      s.partTarget = ceilMs (listMax W)
+
+/-- the switch step either leaves window and PART-TARGET alone, or closes the open part at `next`
+(possibly trimming the window afterwards) and recomputes PART-TARGET from the untrimmed window -/
+theorem switchStep_window (s : St) (new : Sample) :
+    (windowParts (switchStep s new) = windowParts s ∧ (switchStep s new).partTarget = s.partTarget) ∨
+    ((∀ p ∈ windowParts (switchStep s new),
+        p ∈ windowParts s ++ [timestampToDuration new.dts s.cfg.rate - s.partStart]) ∧
+      (switchStep s new).partTarget =
+        ceilMs (listMax (windowParts s ++ [timestampToDuration new.dts s.cfg.rate - s.partStart]))) := by
+  unfold switchStep
+  simp only
+  split
+  · right
+    obtain ⟨w1, w2⟩ := rotateParts_window s (timestampToDuration new.dts s.cfg.rate)
+    obtain ⟨v1, v2⟩ := rotateSegments_window s (timestampToDuration new.dts s.cfg.rate)
+    refine ⟨?_, ?_⟩
+    · intro p hp
+      have : p ∈ windowParts (rotateSegments s (timestampToDuration new.dts s.cfg.rate)) := by
+        simpa [windowParts] using hp
+      have := v1 p this
+      rw [w1] at this; exact this
+    · show (rotateSegments s (timestampToDuration new.dts s.cfg.rate)).partTarget = _
+      rw [v2, w2]
+  · split
+    · right
+      obtain ⟨w1, w2⟩ := rotateParts_window s (timestampToDuration new.dts s.cfg.rate)
+      exact ⟨by intro p hp; rw [w1] at hp; exact hp, w2⟩
+    · left; exact ⟨rfl, rfl⟩
 
 theorem switchStep_mid {cfg : Cfg} {a d K g : Int} (H : RunHyp cfg a d K g) (s : St) (tp j : Int) (ra : Bool)
     (htp : 0 ≤ tp) (hj0 : 0 ≤ j) (hjK : j < K) (hR : Ready cfg a d K s tp j ra) :
@@ -195,11 +282,22 @@ theorem adjust_fields (s : St) (sd : Int) :
     · exact h
   · simp_all
 
-/-- One more sample of the constant-rate run keeps the invariant. -/
-theorem write_step {cfg : Cfg} {a d K g : Int} (H : RunHyp cfg a d K g) (s : St) (x : Int) (ra : Bool)
+theorem ensureSeg_window (s : St) (old : Sample) :
+    windowParts (ensureSeg s old) = windowParts s ∧ (ensureSeg s old).partTarget = s.partTarget := by
+  unfold ensureSeg windowParts
+  split <;> exact ⟨rfl, rfl⟩
+
+theorem adjust_window (s : St) (sd : Int) :
+    windowParts (adjust s sd) = windowParts s ∧ (adjust s sd).partTarget = s.partTarget := by
+  unfold adjust windowParts
+  split <;> exact ⟨rfl, rfl⟩
+
+/-- One more sample: `write` is `switchStep` applied to a state that is `Ready`. -/
+theorem write_ready {cfg : Cfg} {a d K g : Int} (H : RunHyp cfg a d K g) (s : St) (x : Int) (ra : Bool)
     (hm : Mid cfg a d K s)
     (hx : ∀ tp j ra', s.lookahead = some ⟨tp + j * d, ra'⟩ → x + offset cfg.rate = tp + (j + 1) * d) :
-    Mid cfg a d K (write s x ra) := by
+    ∃ tp j s3, 0 ≤ tp ∧ 0 ≤ j ∧ j < K ∧ write s x ra = switchStep s3 ⟨tp + (j + 1) * d, ra⟩ ∧
+      Ready cfg a d K s3 tp j ra ∧ windowParts s3 = windowParts s ∧ s3.partTarget = s.partTarget := by
   obtain ⟨hcfg, ⟨tp, j, ra0, hlook, htp, hj0, hjK, hphase⟩, hnf⟩ := hm
   have hxe := hx tp j ra0 hlook
   have hnn : ¬ (tp + (j + 1) * d < 0) := by
@@ -207,24 +305,27 @@ theorem write_step {cfg : Cfg} {a d K g : Int} (H : RunHyp cfg a d K g) (s : St)
     omega
   have hdiff : tp + (j + 1) * d - (tp + j * d) = d := by ring
   have hoff : durationToTimestamp (10 * secNs) s.cfg.rate = offset cfg.rate := by rw [hcfg]; rfl
-  unfold write
-  simp only [hoff, hxe, hnn, ↓reduceIte, hlook, hdiff]
-  apply switchStep_mid H _ tp j ra htp hj0 hjK
   -- the state after "create first segment" and "adjust part duration"
   generalize hs1 : ({ s with lookahead := some ⟨tp + (j + 1) * d, ra⟩ } : St) = s1
   have f1 : s1.cfg = s.cfg ∧ s1.lookahead = some ⟨tp + (j + 1) * d, ra⟩ ∧ s1.hasSeg = s.hasSeg ∧
       s1.partStart = s.partStart ∧ s1.durSet = s.durSet ∧ s1.adjusted = s.adjusted ∧ s1.freeze = s.freeze ∧
-      nonFinal s1 = nonFinal s := by
-    subst hs1; exact ⟨rfl, rfl, rfl, rfl, rfl, rfl, rfl, rfl⟩
-  obtain ⟨a1, a2, a3, a4, a5, a6, a7, a8⟩ := f1
+      nonFinal s1 = nonFinal s ∧ windowParts s1 = windowParts s ∧ s1.partTarget = s.partTarget := by
+    subst hs1; exact ⟨rfl, rfl, rfl, rfl, rfl, rfl, rfl, rfl, rfl, rfl⟩
+  obtain ⟨a1, a2, a3, a4, a5, a6, a7, a8, a9, a10⟩ := f1
   obtain ⟨b1, b2, b3, b4, b5, b6, b7, b8⟩ := ensureSeg_fields s1 ⟨tp + j * d, ra0⟩
-  generalize hs2 : ensureSeg s1 ⟨tp + j * d, ra0⟩ = s2 at b1 b2 b3 b4 b5 b6 b7 b8 ⊢
-  have hrate : s2.cfg.rate = cfg.rate := by rw [b1, a1, hcfg]
-  rw [hrate]
+  obtain ⟨b9, b10⟩ := ensureSeg_window s1 ⟨tp + j * d, ra0⟩
+  have hrate : (ensureSeg s1 ⟨tp + j * d, ra0⟩).cfg.rate = cfg.rate := by rw [b1, a1, hcfg]
+  have hw : write s x ra = switchStep (adjust (ensureSeg s1 ⟨tp + j * d, ra0⟩) (timestampToDuration d cfg.rate))
+      ⟨tp + (j + 1) * d, ra⟩ := by
+    unfold write
+    simp only [hoff, hxe, hnn, ↓reduceIte, hlook, hdiff, hs1, hrate]
+  generalize hs2 : ensureSeg s1 ⟨tp + j * d, ra0⟩ = s2 at b1 b2 b3 b4 b5 b6 b7 b8 b9 b10 hw
   obtain ⟨c1, c2, c3, c4, c5, c6, c7⟩ := adjust_fields s2 (timestampToDuration d cfg.rate)
-  generalize hs3 : adjust s2 (timestampToDuration d cfg.rate) = s3 at c1 c2 c3 c4 c5 c6 c7 ⊢
+  obtain ⟨c8, c9⟩ := adjust_window s2 (timestampToDuration d cfg.rate)
+  generalize hs3 : adjust s2 (timestampToDuration d cfg.rate) = s3 at c1 c2 c3 c4 c5 c6 c7 c8 c9 hw
   have hnf3 : ∀ p ∈ nonFinal s3, ∃ t0, 0 ≤ t0 ∧ p = partNs t0 K d cfg.rate := by
     intro p hp; rw [c5, b8, a8] at hp; exact hnf p hp
+  refine ⟨tp, j, s3, htp, hj0, hjK, hw, ?_, by rw [c8, b9, a9], by rw [c9, b10, a10]⟩
   rcases hphase with ⟨hseg, hps, hds, hadj⟩ | ⟨hseg, hj, hds, hfr⟩
   · have hcont : (s2.freeze || timestampToDuration d cfg.rate == 0 ||
         s2.durSet.contains (timestampToDuration d cfg.rate)) = true := by
@@ -243,6 +344,39 @@ theorem write_step {cfg : Cfg} {a d K g : Int} (H : RunHyp cfg a d K g) (s : St)
       ?_, hnf3⟩
     · rw [c4, b4, a3, hseg]; simp [a1, hcfg]
     · rw [e2, b5, a5, hds, b1, a1, hcfg, H.ha]; simp
+
+/-- One more sample of the constant-rate run keeps the invariant. -/
+theorem write_step {cfg : Cfg} {a d K g : Int} (H : RunHyp cfg a d K g) (s : St) (x : Int) (ra : Bool)
+    (hm : Mid cfg a d K s)
+    (hx : ∀ tp j ra', s.lookahead = some ⟨tp + j * d, ra'⟩ → x + offset cfg.rate = tp + (j + 1) * d) :
+    Mid cfg a d K (write s x ra) := by
+  obtain ⟨tp, j, s3, htp, hj0, hjK, hw, hR, _, _⟩ := write_ready H s x ra hm hx
+  rw [hw]
+  exact switchStep_mid H s3 tp j ra htp hj0 hjK hR
+
+/-- … and the window invariant. -/
+theorem write_stepW {cfg : Cfg} {a d K g : Int} (H : RunHyp cfg a d K g) (s : St) (x : Int) (ra : Bool)
+    (hm : Mid cfg a d K s) (hw : MidW cfg d K s)
+    (hx : ∀ tp j ra', s.lookahead = some ⟨tp + j * d, ra'⟩ → x + offset cfg.rate = tp + (j + 1) * d) :
+    MidW cfg d K (write s x ra) := by
+  obtain ⟨tp, j, s3, htp, hj0, hjK, hweq, hR, hwin, hpt⟩ := write_ready H s x ra hm hx
+  rw [hweq]
+  obtain ⟨hwp, htgt⟩ := hw
+  rcases switchStep_window s3 ⟨tp + (j + 1) * d, ra⟩ with ⟨e1, e2⟩ | ⟨e1, e2⟩
+  · refine ⟨by rw [e1, hwin]; exact hwp, ?_⟩
+    rw [e1, e2, hwin, hpt]; exact htgt
+  · -- the part that was closed
+    have hnew : IsPart d K cfg.rate (timestampToDuration (tp + (j + 1) * d) s3.cfg.rate - s3.partStart) := by
+      rw [hR.cfg_eq, hR.partStart]
+      exact ⟨tp, j + 1, htp, by omega, by omega, rfl⟩
+    have hall : ∀ p ∈ windowParts s3 ++ [timestampToDuration (tp + (j + 1) * d) s3.cfg.rate - s3.partStart],
+        IsPart d K cfg.rate p := by
+      intro p hp
+      simp only [List.mem_append, List.mem_singleton] at hp
+      rcases hp with hp | hp
+      · rw [hwin] at hp; exact hwp p hp
+      · rw [hp]; exact hnew
+    refine ⟨fun p hp => hall p (e1 p hp), Or.inr ⟨_, e1, hall, e2⟩⟩
 
 theorem switchStep_lookahead (s : St) (new : Sample) : (switchStep s new).lookahead = s.lookahead := by
   unfold switchStep
@@ -269,13 +403,13 @@ def runFrom (s : St) (x d : Int) : List Bool → St
   | ra :: rest => runFrom (write s x ra) (x + d) d rest
 
 theorem runFrom_mid {cfg : Cfg} {a d K g : Int} (H : RunHyp cfg a d K g) (ras : List Bool) :
-    ∀ (s : St) (x : Int), Mid cfg a d K s →
+    ∀ (s : St) (x : Int), Mid cfg a d K s → MidW cfg d K s →
     (∃ ra', s.lookahead = some ⟨x + offset cfg.rate - d, ra'⟩) →
-    Mid cfg a d K (runFrom s x d ras) := by
+    Mid cfg a d K (runFrom s x d ras) ∧ MidW cfg d K (runFrom s x d ras) := by
   induction ras with
-  | nil => intro s x hm _; exact hm
+  | nil => intro s x hm hw _; exact ⟨hm, hw⟩
   | cons ra rest ih =>
-    intro s x hm hx
+    intro s x hm hw hx
     obtain ⟨ra1, hl1⟩ := hx
     simp only [runFrom]
     have hcfg := hm.cfg_eq
@@ -286,7 +420,8 @@ theorem runFrom_mid {cfg : Cfg} {a d K g : Int} (H : RunHyp cfg a d K g) (ras : 
       have : (j + 1) * d = j * d + d := by ring
       omega
     have hm' := write_step H s x ra hm hx'
-    apply ih _ _ hm'
+    have hw' := write_stepW H s x ra hm hw hx'
+    apply ih _ _ hm' hw'
     -- the look-ahead of the new state is the sample just written
     obtain ⟨_, ⟨tp, j, ra0, hlook, htp, hj0, _, _⟩, _⟩ := hm
     have hxe := hx' tp j ra0 hlook
@@ -299,13 +434,9 @@ theorem runFrom_mid {cfg : Cfg} {a d K g : Int} (H : RunHyp cfg a d K g) (ras : 
     have : x + d + offset cfg.rate - d = x + offset cfg.rate := by ring
     rw [this]
 
-/-- Along a run with constant sample duration (first DTS `b`, `b + 10 s ≥ 0`) every non-final part the
-state knows — every part of the open segment and all but the last part of every finished segment in
-the window — holds exactly `K = partSamples a d r` samples: it equals `partNs t0 K d r` for the tick
-`t0 ≥ 0` at which it started. -/
-theorem run_uniform {cfg : Cfg} {a d K g : Int} (H : RunHyp cfg a d K g) (b : Int) (hb : 0 ≤ b + offset cfg.rate)
+theorem run_invariants {cfg : Cfg} {a d K g : Int} (H : RunHyp cfg a d K g) (b : Int) (hb : 0 ≤ b + offset cfg.rate)
     (ra0 : Bool) (ras : List Bool) :
-    ∀ p ∈ nonFinal (runFrom { cfg := cfg } b d (ra0 :: ras)), ∃ t0, 0 ≤ t0 ∧ p = partNs t0 K d cfg.rate := by
+    Mid cfg a d K (runFrom { cfg := cfg } b d (ra0 :: ras)) ∧ MidW cfg d K (runFrom { cfg := cfg } b d (ra0 :: ras)) := by
   simp only [runFrom]
   have hK1 := H.K_pos
   have hnn : ¬ (b + offset cfg.rate < 0) := by omega
@@ -317,8 +448,62 @@ theorem run_uniform {cfg : Cfg} {a d K g : Int} (H : RunHyp cfg a d K g) (b : In
     rw [hw]
     refine ⟨rfl, ⟨b + offset cfg.rate, 0, ra0, by simp, hb, by omega, by omega, Or.inr ⟨rfl, rfl, rfl, rfl⟩⟩, ?_⟩
     intro p hp; simp [nonFinal] at hp
-  have := runFrom_mid H ras (write { cfg := cfg } b ra0) (b + d) hm
-    ⟨ra0, by rw [hw]; simp; ring⟩
-  exact this.nf
+  have hmw : MidW cfg d K (write { cfg := cfg } b ra0) := by
+    rw [hw]
+    exact ⟨by intro p hp; simp [windowParts] at hp, Or.inl (by simp [windowParts])⟩
+  exact runFrom_mid H ras (write { cfg := cfg } b ra0) (b + d) hm hmw ⟨ra0, by rw [hw]; simp; ring⟩
+
+/-- Along a run with constant sample duration (first DTS `b`, `b + 10 s ≥ 0`) every non-final part the
+state knows — every part of the open segment and all but the last part of every finished segment in
+the window — holds exactly `K = partSamples a d r` samples: it equals `partNs t0 K d r` for the tick
+`t0 ≥ 0` at which it started. -/
+theorem run_uniform {cfg : Cfg} {a d K g : Int} (H : RunHyp cfg a d K g) (b : Int) (hb : 0 ≤ b + offset cfg.rate)
+    (ra0 : Bool) (ras : List Bool) :
+    ∀ p ∈ nonFinal (runFrom { cfg := cfg } b d (ra0 :: ras)), ∃ t0, 0 ≤ t0 ∧ p = partNs t0 K d cfg.rate :=
+  (run_invariants H b hb ra0 ras).1.nf
+
+theorem nonFinal_sub_window (s : St) : ∀ p ∈ nonFinal s, p ∈ windowParts s := by
+  intro p hp
+  unfold nonFinal at hp
+  unfold windowParts
+  simp only [List.mem_append, List.mem_flatMap, List.mem_flatten] at hp ⊢
+  rcases hp with ⟨seg, hseg, hp⟩ | hp
+  · exact Or.inl ⟨seg, hseg, List.dropLast_subset seg hp⟩
+  · exact Or.inr hp
+
+/-- the maximum of a window that holds a `K`-sample part is a `K`-sample part -/
+theorem window_max_is_K {cfg : Cfg} {a d K g : Int} (H : RunHyp cfg a d K g) (W : List Int)
+    (hall : ∀ p ∈ W, IsPart d K cfg.rate p) (hK : ∃ p ∈ W, ∃ t0, 0 ≤ t0 ∧ p = partNs t0 K d cfg.rate) :
+    ∃ t, 0 ≤ t ∧ listMax W = partNs t K d cfg.rate := by
+  obtain ⟨pK, hpK, t0, ht0, rfl⟩ := hK
+  have hge : partNs t0 K d cfg.rate ≥ a := (H.switch_iff t0 K ht0 (by have := H.K_pos; omega)).mpr (Int.le_refl _)
+  have hM : partNs t0 K d cfg.rate ≤ listMax W := listMax_ge hpK
+  have hapos := H.hapos
+  rcases listMax_mem W with h0 | hm
+  · omega
+  · obtain ⟨t, j, ht, hj0, hjK, he⟩ := hall _ hm
+    by_cases hj : j = K
+    · exact ⟨t, ht, by rw [he, hj]⟩
+    · exfalso
+      have hlt : ¬ (partNs t j d cfg.rate ≥ a) := by
+        intro hh
+        have := (H.switch_iff t j ht hj0).mp hh
+        omega
+      rw [← he] at hlt
+      omega
+
+/-- Whenever the state knows a non-final part, PART-TARGET is the millisecond ceiling of a `K`-sample part. -/
+theorem run_target {cfg : Cfg} {a d K g : Int} (H : RunHyp cfg a d K g) (b : Int) (hb : 0 ≤ b + offset cfg.rate)
+    (ra0 : Bool) (ras : List Bool)
+    (hne : nonFinal (runFrom { cfg := cfg } b d (ra0 :: ras)) ≠ []) :
+    ∃ t, 0 ≤ t ∧ (runFrom { cfg := cfg } b d (ra0 :: ras)).partTarget = ceilMs (partNs t K d cfg.rate) := by
+  obtain ⟨hm, hw⟩ := run_invariants H b hb ra0 ras
+  obtain ⟨p, hp⟩ := List.exists_mem_of_ne_nil _ hne
+  obtain ⟨t0, ht0, hpe⟩ := hm.nf p hp
+  have hpw := nonFinal_sub_window _ p hp
+  rcases hw.tgt with hnil | ⟨W, hsub, hall, hpt⟩
+  · rw [hnil] at hpw; simp at hpw
+  · obtain ⟨t, ht, hmax⟩ := window_max_is_K H W hall ⟨p, hsub p hpw, t0, ht0, hpe⟩
+    exact ⟨t, ht, by rw [hpt, hmax]⟩
 
 end Hls.PartDur
